@@ -236,8 +236,12 @@ def run_model(transcript_path, out_path, extra_args=()):
     return verdicts, extra
 
 
+# every harness run happens in a private mount namespace in which only the scratch area is writable (tools/jail.sh)
+JAIL = [os.path.join(VERIF, "tools", "jail.sh"), CACHE]
+
+
 def run_harness(args, out_path, timeout=3600, prefix=()):
-    cmd = list(prefix) + [HARNESS_BIN] + args + ["--out", out_path]
+    cmd = JAIL + list(prefix) + [HARNESS_BIN] + args + ["--out", out_path]
     rc, out = sh(cmd, timeout=timeout)
     if rc != 0:
         raise BuildError(f"harness {' '.join(args)} failed rc={rc}:\n{out[-3000:]}")
